@@ -297,7 +297,7 @@ func c11gate(p *Program, r *Report, rule string) {
 }
 
 func globalInitString(p *Program, name string) (string, bool) {
-	initFn := p.Main.Members["init"].(*ssa.Function)
+	initFn := p.member("init").(*ssa.Function)
 	for _, b := range initFn.Blocks {
 		for _, in := range b.Instrs {
 			st, ok := in.(*ssa.Store)
@@ -305,7 +305,7 @@ func globalInitString(p *Program, name string) (string, bool) {
 				continue
 			}
 			g, ok := st.Addr.(*ssa.Global)
-			if !ok || g.Name() != name {
+			if !ok || memberName(g) != name {
 				continue
 			}
 			v := st.Val
@@ -368,7 +368,7 @@ func c11key(p *Program, r *Report, rule string) {
 	guid, ok := globalInitString(p, "keyGUID")
 	r.Exists(rule, "accept.go", "keyGUID", "-", ok && guid == "258EAFA5-E914-47DA-95CA-C5AB0DC85B11", "keyGUID is the RFC 6455 GUID 258EAFA5-E914-47DA-95CA-C5AB0DC85B11", guid)
 	// keyGUID is never written elsewhere (the slice header or its elements)
-	if g, ok := p.Main.Members["keyGUID"].(*ssa.Global); ok {
+	if g, ok := p.member("keyGUID").(*ssa.Global); ok {
 		for _, f := range p.Funcs {
 			for _, b := range f.Blocks {
 				for _, in := range b.Instrs {
